@@ -7,11 +7,14 @@
                                (Zfloor / Zceil / round-half-away / Ztrunc of the real value), for every double
       C09_no_panic             never a panic
       C09_integers_in_range    every Integer that eval_number returns lies in [-2^63, 2^63 - 1] (for every tree whose Integer
-                               leaves do): an Integer result is never a wrapped or fabricated value *)
+                               leaves do): an Integer result is never a wrapped or fabricated value
+      C09_mixed_comparison_exact  compare(Integer i, Float f) (used by min / max / med) is the comparison of the two real
+                               numbers, for every i64 and every finite double; +-inf and NaN as expected; and so is the
+                               comparison of any two finite Numbers *)
 From Coq Require Import List ZArith Reals Bool Lia.
 From Flocq Require Import Core.Core IEEE754.BinarySingleNaN.
 From SC Require Import Base.Res Base.F64 Base.RustInt Base.Num Base.Oracle Lang.Syntax Eval.EvalNum
-  Proofs.ParserWf Proofs.NoPanic Proofs.I64Facts Proofs.NumberFrom Proofs.NumRange.
+  Proofs.ParserWf Proofs.NoPanic Proofs.I64Facts Proofs.NumberFrom Proofs.NumRange Proofs.NumCompare.
 Import ListNotations.
 Local Open Scope Z_scope.
 
@@ -113,3 +116,22 @@ Theorem C09_integers_in_range :
   forall (L : libm) (a : node number) z, leaves_ok a = true -> eval_num L a = Ok (Int z) -> in_i64 z = true.
 Proof. intros L a z Hl H. exact (eval_num_in_range L a (Int z) Hl H). Qed.
 Print Assumptions C09_integers_in_range.
+
+Theorem C09_mixed_comparison_exact :
+  (forall i f, (- 2 ^ 63 <= i < 2 ^ 63) -> is_finite f = true ->
+     int_float i f = Some (Rcompare (IZR i) (@B2R 53 1024 f))) /\
+  (forall i, int_float i (B754_infinity false) = Some Lt /\ int_float i (B754_infinity true) = Some Gt /\ int_float i B754_nan = None) /\
+  (forall a b, nrange a -> nrange b -> nfinite a = true -> nfinite b = true ->
+     ncmp a b = Some (Rcompare (nval a) (nval b))).
+Proof.
+  split; [exact int_float_exact|]. split; [exact int_float_nonfinite|exact ncmp_exact].
+Qed.
+Print Assumptions C09_mixed_comparison_exact.
+
+(** 2^53 + 1 as an Integer against the double 2^53 (equal after conversion, different as numbers), and a fraction *)
+Example C09_comparison_examples :
+  ncmp (Int (2 ^ 53 + 1)) (Flt (f64_of_Z (2 ^ 53))) = Some Gt /\
+  ncmp (Int 2) (Flt (f64_of_bits 0x4004000000000000)) = Some Lt /\         (* 2 < 2.5 *)
+  ncmp (Flt (f64_of_bits 0xC004000000000000)) (Int (-2)) = Some Lt /\      (* -2.5 < -2 *)
+  ncmp (Int (2 ^ 63 - 1)) (Flt (f64_of_Z (2 ^ 63))) = Some Lt.
+Proof. repeat split; vm_compute; reflexivity. Qed.
